@@ -128,6 +128,9 @@ def main(run):
     names = [n for n in sas.compiled_model_names() if load_model_info(n).parameters.nmagnetic > 0]
     if not thorough:
         names = [n for n in QUICK_MODELS if n in names]
+    # mixtures are models with SLD parameters too: a moment on one component's SLD only must leave the other
+    # components in the polarised evaluation (weights w_dd + w_uu, not 1)
+    names = list(names) + ["sphere+cylinder", "core_shell_sphere+ellipsoid"] + (["sphere*cylinder", "sphere+cylinder+ellipsoid"] if thorough else [])
     for name in names:
         model = sas.load(name)
         info = model.info
